@@ -8,15 +8,22 @@ package standard
 import (
 	"context"
 	"testing"
+	"time"
 
 	apiv1 "github.com/attestantio/go-eth2-client/api/v1"
 	"github.com/attestantio/go-eth2-client/spec/phase0"
+	"github.com/attestantio/vouch/services/attester"
+	"github.com/attestantio/vouch/services/beaconcommitteesubscriber"
 	"github.com/attestantio/vouch/verifdrivers/c17run"
+	"github.com/prysmaticlabs/go-bitfield"
+	e2wtypes "github.com/wealdtech/go-eth2-wallet-types/v2"
 )
 
 type c17Controller struct {
 	h    *c03Harness
 	slot uint64
+	// prepare, if set, alters the harness before the controller is built (group attinfo)
+	prepare func(h *c03Harness)
 }
 
 func (c *c17Controller) Reset(_ context.Context) {
@@ -27,6 +34,9 @@ func (c *c17Controller) Reset(_ context.Context) {
 		oracle.Att = append(oracle.Att, c03AttDuty{E: e, Ver: 1, V: 1, Slot: e*4 + 2}, c03AttDuty{E: e, Ver: 1, V: 2, Slot: e*4 + 3})
 	}
 	c.h = c03NewHarness(cfg, oracle)
+	if c.prepare != nil {
+		c.prepare(c.h)
+	}
 	c.slot = 5
 	if err := c.h.Start(c.slot, true); err != nil {
 		panic("c17 harness: controller: " + err.Error())
@@ -72,10 +82,139 @@ func (c *c17Controller) Settle() {
 
 func (*c17Controller) Close() {}
 
+// ---------------------------------------------------------------------------------------------------------------
+// Group "attinfo": the attestation jobs of the slots of ONE epoch all read the entries of the epoch's subscription
+// info - one map of maps, obtained from the beacon committee subscriber and published through
+// controller.subscriptionInfos; they pick it up under the lock and read its entries without it - while head events
+// remove old epochs and (node 2: another fork) start a refresh that publishes a new one.  The environment is wide: the
+// attester returns nothing (the job ends there: all the recording fake of the first version ever did) or
+// attestations, and the by-index lookup of the aggregator's account finds an account or none.
+
+type c17Info struct {
+	c17Controller
+	// installed by Begin before the calls of the history start, read-only afterwards (no lock: the fakes add no
+	// happens-before edge between two jobs)
+	att  map[uint64]string // slot -> none | some
+	acct map[uint64]string // validator -> yes | no
+	rep  int
+}
+
+func c17NewInfo() *c17Info {
+	c := &c17Info{}
+	c.prepare = func(h *c03Harness) {
+		h.Attester = &c17InfoAttester{c: c}
+		h.BeaconCommitteeSubscriber = &c17InfoSubscriber{}
+		h.ExtraParams = []Parameter{WithLogLevel(c17run.LogLevel()), WithValidatingAccountsProvider(&c17InfoAccounts{c: c, h: h})}
+	}
+	return c
+}
+
+// Begin installs what the environment answers to the jobs of the history (before any call).
+func (c *c17Info) Begin(sc c17run.Schedule, rep int) {
+	c.att, c.acct, c.rep = map[uint64]string{}, map[uint64]string{}, rep
+	for _, op := range append(append([]c17run.Op{}, sc.Pre...), sc.Par...) {
+		if op.Name() == "Job" {
+			slot := uint64(4 + op.Int("s")) // abstract slot 1, 2 = slot 5, 6: the duties of validators 1 and 2
+			c.att[slot], _ = op["att"].(string)
+			c.acct[uint64(op.Int("s"))], _ = op["acct"].(string)
+		}
+	}
+}
+
+func (c *c17Info) Call(ctx context.Context, id int, op c17run.Op) int {
+	if op.Name() == "Job" {
+		c.h.Sched.Fire(c.h.Ctx, c03JobName("att", uint64(4+op.Int("s"))))
+		return 0
+	}
+	return c.c17Controller.Call(ctx, id, op)
+}
+
+type c17InfoAttester struct{ c *c17Info }
+
+func (a *c17InfoAttester) Attest(_ context.Context, duty *attester.Duty) ([]*phase0.Attestation, error) {
+	mode := a.c.att[uint64(duty.Slot())]
+	// the attester's round trips to the beacon node and the signer take time (a sleep: no happens-before edge): jobs
+	// released within a few hundred microseconds of each other are under way together afterwards
+	time.Sleep(400 * time.Microsecond)
+	if mode != "some" {
+		return []*phase0.Attestation{}, nil
+	}
+	res := make([]*phase0.Attestation, 0, len(duty.ValidatorIndices()))
+	for i := range duty.ValidatorIndices() {
+		res = append(res, &phase0.Attestation{
+			AggregationBits: bitfield.NewBitlist(8),
+			Data: &phase0.AttestationData{
+				Slot:   duty.Slot(),
+				Index:  duty.CommitteeIndices()[i],
+				Source: &phase0.Checkpoint{},
+				Target: &phase0.Checkpoint{Epoch: phase0.Epoch(uint64(duty.Slot()) / 4)},
+			},
+		})
+	}
+	return res, nil
+}
+
+// c17InfoSubscriber answers as the beacon committee subscriber does: a NEW map per call, every validator of the
+// controller an aggregator of its committee.
+type c17InfoSubscriber struct{}
+
+func (*c17InfoSubscriber) Subscribe(_ context.Context, epoch phase0.Epoch, _ map[phase0.ValidatorIndex]e2wtypes.Account,
+) (map[phase0.Slot]map[phase0.CommitteeIndex]*beaconcommitteesubscriber.Subscription, error) {
+	res := map[phase0.Slot]map[phase0.CommitteeIndex]*beaconcommitteesubscriber.Subscription{}
+	for v := uint64(1); v <= 2; v++ {
+		for shift := uint64(0); shift <= 1; shift++ { // the duty slots of both versions of the dependent root
+			slot := phase0.Slot(uint64(epoch)*4 + v + shift)
+			if res[slot] == nil {
+				res[slot] = map[phase0.CommitteeIndex]*beaconcommitteesubscriber.Subscription{}
+			}
+			sub := &beaconcommitteesubscriber.Subscription{
+				Duty:         &apiv1.AttesterDuty{Slot: slot, ValidatorIndex: phase0.ValidatorIndex(v), CommitteeIndex: phase0.CommitteeIndex(v % 2)},
+				IsAggregator: true,
+			}
+			sub.Signature[0] = 0x5a
+			res[slot][phase0.CommitteeIndex(v%2)] = sub
+		}
+	}
+	return res, nil
+}
+
+// c17InfoAccounts: the harness's accounts, but for the by-index lookup of an aggregator whose account is gone.
+type c17InfoAccounts struct {
+	c *c17Info
+	h *c03Harness
+}
+
+func (a *c17InfoAccounts) ValidatingAccountsForEpoch(ctx context.Context, epoch phase0.Epoch) (map[phase0.ValidatorIndex]e2wtypes.Account, error) {
+	return a.h.ValidatingAccountsForEpoch(ctx, epoch)
+}
+
+func (a *c17InfoAccounts) ValidatingAccountsForEpochByIndex(ctx context.Context, epoch phase0.Epoch, indices []phase0.ValidatorIndex) (map[phase0.ValidatorIndex]e2wtypes.Account, error) {
+	res, err := a.h.ValidatingAccountsForEpochByIndex(ctx, epoch, indices)
+	if a.c.rep%2 == 1 {
+		time.Sleep(200 * time.Microsecond) // every other repetition the lookup is slow: the job sits between its reads and what follows
+	}
+	for v := range res {
+		if a.c.acct[uint64(v)] == "no" {
+			delete(res, v)
+		}
+	}
+	return res, err
+}
+
+func (a *c17InfoAccounts) SyncCommitteeAccountsForEpoch(ctx context.Context, epoch phase0.Epoch) (map[phase0.ValidatorIndex]e2wtypes.Account, error) {
+	return a.h.SyncCommitteeAccountsForEpoch(ctx, epoch)
+}
+
+func (a *c17InfoAccounts) SyncCommitteeAccountsForEpochByIndex(ctx context.Context, epoch phase0.Epoch, indices []phase0.ValidatorIndex) (map[phase0.ValidatorIndex]e2wtypes.Account, error) {
+	return a.h.SyncCommitteeAccountsForEpochByIndex(ctx, epoch, indices)
+}
+
 func TestVerifC17(t *testing.T) {
 	c17run.Run(t, map[string]func(ctx context.Context) c17run.Group{
 		"controller": func(_ context.Context) c17run.Group { return &c17Controller{} },
 		// the sync committee duty pipeline through the real scheduling path (zz_verif_c17_sync_test.go)
 		"syncduty": func(_ context.Context) c17run.Group { return &c17Sync{} },
+		// attestation jobs of one epoch's slots on the entries of the epoch's subscription info (same file)
+		"attinfo": func(_ context.Context) c17run.Group { return c17NewInfo() },
 	})
 }
